@@ -148,6 +148,7 @@ fn main() {
                 stride: args.num("stride", 1),
                 emit_known: args.flag("emit-known"),
                 targeted: args.flag("targeted"),
+                targeted_budget: args.num("targeted-budget", 5000),
             };
             let sel = args.str("flavours", "sync");
             if sel == "sync" || sel == "sync_digraph" {
